@@ -143,6 +143,17 @@ type i33Model struct {
 	Trees map[string]map[string]string
 	C0    string
 	Bare  bool
+	// Pinned: branches that existed when an Add of their name failed. Whatever
+	// else such a half-made worktree leaves behind, the branch that was there
+	// before must still be there with its value.
+	Pinned map[string]bool
+}
+
+func (m *i33Model) pin(ref string) {
+	if m.Pinned == nil {
+		m.Pinned = map[string]bool{}
+	}
+	m.Pinned[ref] = true
 }
 
 func (m *i33Model) headCommit(w string) string {
@@ -258,11 +269,17 @@ func (m *i33Model) post(op i33Op, e i33Expect, ok bool, newCommit, content strin
 			// worktree before failing; its own state is not modelled
 			t.Broken, t.Ever = true, true
 			t.LastOp = "add-failed"
+			if op.Kind != "addd" && m.Refs["refs/heads/"+op.W] != "" {
+				m.pin("refs/heads/" + op.W)
+			}
 			return
 		}
 		if !e.MustOK || !ok {
 			t.Broken, t.Ever = true, true
 			t.LastOp = "add-unmodelled"
+			if !ok && op.Kind != "addd" && m.Refs["refs/heads/"+op.W] != "" {
+				m.pin("refs/heads/" + op.W)
+			}
 			return
 		}
 		base := m.headCommit("main")
@@ -683,7 +700,7 @@ func (r *i33Run) compare(lay i33Lay, m *i33Model) string {
 			}
 		}
 		for _, k := range iSortedKeys(names) {
-			if st.Refs[k] != m.Refs[k] && !anyBroken {
+			if st.Refs[k] != m.Refs[k] && (!anyBroken || m.Pinned[k]) {
 				bad = append(bad, fmt.Sprintf("shared ref %s is %s, model %s", k, i36Short(st.Refs[k]), i36Short(m.Refs[k])))
 			}
 		}
